@@ -73,6 +73,13 @@ CHECKS['C10'] = {'run': coll_family.run_c10, 'signatures': {}, 'search': None}
 CHECKS['C11'] = {'run': coll_family.run_c11, 'signatures': {}, 'search': None}
 
 
+from . import access_family  # noqa: E402
+
+for _pid in ('C15', 'C16', 'C17'):
+    CHECKS[_pid] = {'run': (lambda pid: (lambda tier, seed: access_family.evaluate(pid, tier, seed)))(_pid),
+                    'signatures': {}, 'search': None}
+
+
 def run_check(pid, tier, seed):
     chk = CHECKS[pid]
     return core.decide(pid, tier, seed, chk['run'], signatures=chk.get('signatures'),
@@ -101,4 +108,4 @@ def replay(payload):
     return handler(pid, fl)
 
 
-REPLAYERS = {'collection': coll_family.replay, 'collection-perm': coll_family.replay, 'validate': coll_family.replay}
+REPLAYERS = {'access': access_family.replay, 'collection': coll_family.replay, 'collection-perm': coll_family.replay, 'validate': coll_family.replay}
